@@ -147,6 +147,7 @@ def run(ctx):
         if mname == "smape":
             check_split_index(rc, "T3", m, "rdp.rdp", allow_middle=False)
             check_children(rc, "T4", m, "rdp.rdp")
+    rm.check_distance_dispatch(rc, "T3", "rdp.rdp")
     _dispatch_table(rc)
 
 
